@@ -204,11 +204,115 @@ def job(a):
     return out
 
 
+def job_original_f(nm):
+    """the CLASSICAL face of the bound function: bound.original_f(*remaining) is the unbound Python function with the parameters set,
+    called positionally, for every binding (any keyword order), parameters in leading / middle / trailing position; decorated functions
+    defined in a file (fallback path of bind) and source strings (re-executed path)."""
+    from .. import c08_funcs
+    out = []
+    base = dict(strength="bounded", backend="native")
+    ref, remaining, space = c08_funcs.REFS[nm]
+    uq = getattr(c08_funcs, nm)
+    names = list(space)
+    bad = None
+    n = 0
+    for ci, combo in enumerate(itertools.product(*[space[k] for k in names])):
+        kw = dict(zip(names, combo))
+        if ci % 2:
+            kw = dict(reversed(list(kw.items())))
+        try:
+            qf = uq.bind(**kw)
+        except Exception as ex:  # noqa
+            bad = dict(parameters=str(kw), observed=f"bind raises {type(ex).__name__}: {ex}"[:200])
+            break
+        for vals in itertools.product([False, True], repeat=len(remaining)):
+            n += 1
+            want = bool(ref(*vals, **kw))
+            try:
+                got = qf.original_f(*vals)
+            except Exception as ex:  # noqa
+                got = f"raises {type(ex).__name__}: {ex}"[:160]
+            if got != want:
+                bad = dict(parameters=str(kw), arguments=list(vals), observed=repr(got), expected=repr(want), call=f"vlib.c08_funcs.{nm}.bind(**parameters).original_f(*arguments)")
+                break
+        if bad:
+            break
+        # the expressions of the same binding
+        et = bounded.expr_tables(qf, 12)
+        tnames, tabs, mask = et
+        for r in range(1 << len(tnames)):
+            env = {tn: bool((r >> i) & 1) for i, tn in enumerate(tnames)}
+            want = bool(ref(*[env[a] for a in remaining], **kw))
+            got = (tabs[qf.returns.bitvec[0]] >> r) & 1 == 1
+            if got != want:
+                bad = dict(parameters=str(kw), input_bits=env, observed=got, expected=want, call="expressions of the bound function")
+                break
+        if bad:
+            break
+    name = f"C08.bind.original_f[decorated function in a file: {nm}]"
+    out.append(res(name, PROVED, calls=n, **base) if not bad else res(name, REFUTED, replayed=True, replay=bad, **base))
+    return out
+
+
+def job_original_f_src(idx):
+    """same clause for the programs given as source strings with boolean / small-integer arguments: plain Python values in, plain value out"""
+    src, space = PROGRAMS[idx][:2]
+    from qlasskit import qlassf
+    base = dict(strength="bounded", backend="native", program=src)
+    key = hashlib.sha1(src.encode()).hexdigest()[:8]
+    name = f"C08.bind.original_f[source string,{key}]"
+    params, allargs = param_names(src)
+    fd = ast.parse(src).body[0]
+    anns = {a.arg: ast.unparse(a.annotation) for a in fd.args.args}
+    remaining = [a for a in allargs if a not in params]
+    if len(PROGRAMS[idx]) > 2 or any(anns[a] not in ("bool", "Qint[2]") for a in remaining) or "for " in src:
+        return []
+    # the plain-Python reference: the source itself with annotations erased
+    fd2 = ast.parse(src)
+    for a in fd2.body[0].args.args:
+        a.annotation = None
+    fd2.body[0].returns = None
+    ns = {}
+    exec(compile(fd2, "<ref>", "exec"), ns)
+    ref = ns[fd.name]
+    uq = qlassf(src, to_compile=False)
+    names = list(space)
+    bad, n = None, 0
+    for combo in itertools.product(*[space[k] for k in names]):
+        kw = dict(zip(names, combo))
+        qf = uq.bind(**kw)
+        doms = [[False, True] if anns[a] == "bool" else [0, 1, 2, 3] for a in remaining]
+        for vals in itertools.product(*doms):
+            n += 1
+            full = {**dict(zip(remaining, vals)), **kw}
+            try:
+                want = ref(**full)
+            except Exception:  # noqa
+                continue
+            try:
+                got = qf.original_f(*vals)
+            except Exception as ex:  # noqa
+                got = f"raises {type(ex).__name__}: {ex}"[:160]
+            if got != want:
+                bad = dict(parameters=str(kw), arguments=list(vals), observed=repr(got), expected=repr(want), call="qlassf(program).bind(**parameters).original_f(*arguments) vs the program run by CPython")
+                break
+        if bad:
+            break
+    return [res(name, PROVED, calls=n, **base) if not bad else res(name, REFUTED, replayed=True, replay=dict(program=src, **bad), **base)]
+
+
+def _dispatch(j):
+    f, a = j
+    return f(a)
+
+
 def run(tier, only=None):
     from qlasskit.qlassfun import UnboundQlassf
     rep = Report("C08", tier, "exploration", f"./check C08 --tier {tier}")
-    jobs = [(i, p) for i in range(len(PROGRAMS)) for p in ("default", "fast")]
-    rep.add(run_pool(job, jobs))
+    jobs = [(job, (i, p)) for i in range(len(PROGRAMS)) for p in ("default", "fast")]
+    jobs += [(job_original_f, nm) for nm in ("lead", "trail", "mid")]
+    jobs += [(job_original_f_src, i) for i in range(len(PROGRAMS))]
+    rep.add(run_pool(_dispatch, jobs))
     rep.under_contract(UnboundQlassf.bind)
     rep.rule = "one evaluation = one parameterised program x profile: every listed parameter value bound and the result compared with the reference on all remaining inputs; distinct = distinct program text"
     rep.extra.update(bounded=dict(family=f"{len(PROGRAMS)} parameterised programs (1-3 parameters: bool, Qint2/4, Qlist, Tuple; any keyword order) x all listed parameter values x both profiles; "
